@@ -258,6 +258,55 @@ CHECKS["C16"] = {
     "bounds": {"quick": "stream <= 16 bytes, one read", "thorough": "stream <= 20 bytes, two reads"},
 }
 
+CHECKS["C17"] = {
+    "harnesses": [H("c17.VH_throttle", {"CFG": i, "READS": 2, "CONNS": 2, "SIZES": 3, "L": 320}, {"CFG": i, "READS": 2, "CONNS": 2, "SIZES": 6, "L": 400}, variant=f"cfg{i}", weight=3,
+                    covers=["throttled", "bytes read"], validate=False, native_replay=False, env_only=True) for i in range(4)],
+    "level_text": "bounded model checking of the real throttle Handler.Provision/Handle and throttledConn.Read on the virtual clock against an integer token-bucket contract for x/time/rate.Limiter (NewLimiter, Burst, WaitN): per connection and summed over two connections of one handler, bytes read by any read instant <= burst + rate x elapsed; the first client read is not before the configured latency; WaitN is never asked for more than the burst; every read continues the client's stream (stream symbolic, segmentation symbolic)",
+    "level_note": "relative to the token-bucket contract - x/time/rate's own float64 arithmetic is not encoded (floats are concrete-only in the engine); four concrete rate/burst/latency configurations; reader buffer sizes from {1,32,64,100,101,300}; 2-3 reads per connection, two connections one after the other; context cancellation during the latency wait is not modelled; no native replay (limiter replaced, virtual clock)",
+    "assumptions": ["rate.Limiter = integer token bucket: WaitN(n) fails if n > burst, otherwise returns at the earliest instant n tokens are available and removes them; tokens accrue at rate/s up to burst"],
+    "outside": ["x/time/rate implementation", "rates/bursts outside the four configurations", "concurrent (interleaved) connections", "context cancellation"],
+    "bounds": {"quick": "4 configurations x 3 buffer sizes ^ 2 reads x 2 connections, stream <= 320", "thorough": "6 buffer sizes, stream <= 400"},
+}
+
+_envonly = dict(validate=False, native_replay=False, env_only=True)
+CHECKS["C11"] = {
+    "harnesses": [
+        H("c11.VH_maxconn", {}, {}, covers=["probed while proxying"], **_envonly),
+        H("c11.VH_active", {}, {}, covers=["checked"], **_envonly),
+        H("c11.VH_failwindow", {}, {}, covers=["queried", "out of rotation"], **_envonly),
+        H("c11.VH_retry", {}, {}, covers=["gave up", "connected after retries"], **_envonly),
+    ],
+    "level_text": "bounded model checking of the real proxy Handler.Handle / dialPeers / countFailure / tryAgain / doActiveHealthCheck in the engine's goroutine mode on the virtual clock, net.Dial being an environment stub with scripted outcomes: max_connections (a probe selection made while the first connection is being proxied must be refused, and the count returns to zero), active checks (peer down iff it refuses), passive failure window (out of rotation exactly while failures of the last fail_duration >= max_fails, for 1-3 failures at instants from a grid, count never negative and back to zero), retries (every try_interval, not after try_duration, last dial error returned, one attempt with try_duration 0)",
+    "level_note": "one upstream with one peer; failure instants and query instants from a 3-7-11-second grid around fail_duration = 10 s; try_duration in {0, 1 s, 2.5 s}, try_interval 500 ms; cooperative goroutine schedule (goroutines ready to run do so before virtual time passes); not natively replayable (dial stub, virtual clock): counterexamples are reported from the solver alone",
+    "assumptions": ["net.Dial / net.DialTimeout = scripted outcomes", "virtual clock; cooperative scheduling, no pre-emption"],
+    "outside": ["several upstreams failing independently", "pre-emptive interleavings", "real sockets"],
+    "bounds": {"quick": "as described", "thorough": "same"},
+}
+CHECKS["C03"] = {
+    "harnesses": [
+        H("c11.VH_relay", {"PEERS": 1, "BL": 3, "DL": 3, "UPL": 3}, {"PEERS": 1, "BL": 4, "DL": 4, "UPL": 4}, variant="one-peer", covers=["relayed"], weight=2, **_envonly),
+        H("c11.VH_relay", {"PEERS": 2, "BL": 2, "DL": 2, "UPL": 2}, {"PEERS": 2, "BL": 3, "DL": 3, "UPL": 3}, variant="two-peers", covers=["relayed"], weight=5, **_envonly),
+    ],
+    "level_text": "bounded model checking (reduced claim) of the real Handler.Handle tail and Handler.proxy with io.Copy / io.TeeReader executed from SSA in the engine's goroutine mode: prefetched-but-unread bytes plus the client's stream reach every peer exactly once and in order, upstream bytes reach the client in order, CloseWrite reaches each upstream only after the last client byte and the client only after every upstream finished, proxy returns (no deadlock), every upstream connection is closed",
+    "level_note": "payloads of a few bytes in 1-3 chunks per direction, 1-2 peers, client and upstreams half-close after their last byte; cooperative schedule only (no pre-emption inside io.Copy), no abrupt closes, no MiB payloads, no kernel buffering; scripted conns stand for TCP/Unix/TLS half-close behaviour; not natively replayable",
+    "assumptions": ["net.Dial = scripted upstream connections implementing CloseWrite", "cooperative scheduling"],
+    "outside": ["large payloads and write timings", "abrupt close orders", "real transports"],
+    "bounds": {"quick": "<= 3 bytes per source, 1 or 2 peers", "thorough": "<= 4 bytes"},
+}
+CHECKS["C12"] = {
+    "harnesses": [
+        H("c01.VH_pp_allow", {"OFFSET0": 1, "READS": 1, "ROUNDS": 2}, {"OFFSET0": 1, "READS": 2, "ROUNDS": 2}, covers=["allowed peer", "peer outside the allow list", "recorder ran"], weight=4),
+        H("c01.VH_step_proxyproto", {"params": {"READS": 1, "OFFSET0": 1, "MAXB": 5000, "MAXD": 1000, "ROUNDS": 2}, "timeout_ms": 60000},
+          {"params": {"READS": 2, "OFFSET0": 0, "MAXB": 9000, "MAXD": 1000, "ROUNDS": 2}, "timeout_ms": 120000}, covers=["recorder ran", "more than 4096 bytes buffered"], weight=5),
+        H("c11.VH_ppsend", {"PEERS": 1}, {"PEERS": 2}, covers=["header sent"], **_envonly),
+    ],
+    "level_text": "bounded model checking (reduced claim): receiver - the real proxy_protocol Handler with its allow list (symbolic IPv4 peer, three CIDRs incl. an overlapping /32) accepts a header only from allowed peers, later handlers see the declared source address and GetConn returns the PROXY connection, other peers are passed through on the same connection with the stream intact; exactly the header bytes are stripped (three concrete valid headers, up to 9000 prefetched bytes); sender - dialPeers writes exactly one header per peer before any payload: v2 bytes compared field by field for a symbolic client address/port, v1 compared with the exact text line for a concrete address",
+    "level_note": "the library's header parser is replaced under the engine by 'consume the (concrete, valid) header' while the native twin runs the real parser on the same bytes; TLVs, v2 LOCAL semantics beyond stripping, UNKNOWN/TCP6 families on the sender side and the library parser's behaviour on malformed headers are outside; the v1 text is produced by library code (fmt, net.IP.String) and is only checked for one concrete address",
+    "assumptions": ["proxyprotocol.Parse replaced by: discard the concrete header", "net.Dial = scripted upstream"],
+    "outside": ["TLVs, TCP6/UNKNOWN headers on the sender side", "malformed headers", "header split across reads in the library parser"],
+    "bounds": {"quick": "as described", "thorough": "larger buffers, two peers"},
+}
+
 NOT_APPLICABLE = {
     "C15": "Caddyfile->JSON adaptation and JSON round-trip run through the Caddyfile lexer, encoding/json reflection and Caddy's module loader over an unbounded configuration grammar; this cannot be encoded by a hand-written go/ssa symbolic executor (reflection refused, inputs are programs of a grammar, not bounded bytes/integers)",
 }
